@@ -15,7 +15,7 @@ def gen_recs(rng, n, chroms):
         c = rng.choice(chroms)
         s = rng.choice([1, 5, 9, 10, 11, 50, 100, 1000])
         e = s + rng.choice([0, 0, 1, 10])
-        recs.append({"tumor": rng.choice(["T1", "T1", "T2"]), "normal": rng.choice(["N1", "N1", "N2", ""]),
+        recs.append({"tumor": rng.choice(SC.TUMORS if rng.random() < 0.4 else ["T1", "T1", "T2"]), "normal": rng.choice(SC.NORMALS if rng.random() < 0.4 else ["N1", "N1", "N2", ""]),
                      "chr": c, "start": s, "stop": e})
         if rng.random() < 0.15:
             recs[-1]["_spell"] = "+%d"      # (scheme-less files only) the position text is what int() reads: a sign is part of it
@@ -202,7 +202,7 @@ def gen_file(rng, strangers):
         v = dict(rng.choice(recs))
         comp = rng.choice(["tumor", "normal", "chr", "start", "stop", "none"])
         if comp in ("tumor", "normal"):
-            v[comp] = rng.choice([x for x in (["T1", "T2", "TA"] if comp == "tumor" else ["N1", "N2", ""]) if x != v[comp]])
+            v[comp] = rng.choice([x for x in (SC.TUMORS if comp == "tumor" else SC.NORMALS) if x != v[comp]])
         elif comp == "chr":
             v["chr"] = rng.choice(chroms)
         elif comp == "start":
@@ -224,7 +224,7 @@ def gen_file(rng, strangers):
             b = dict(a)
             comp = rng.choice(["chr", "start", "stop"] + (["tumor", "normal", "tumor", "normal"] if order == "BarcodesAndCoordinate" else []))
             if comp in ("tumor", "normal"):
-                b[comp] = rng.choice([x for x in (["T1", "T2", "TA"] if comp == "tumor" else ["N1", "N2", ""]) if x != a[comp]])
+                b[comp] = rng.choice([x for x in (SC.TUMORS if comp == "tumor" else SC.NORMALS) if x != a[comp]])
             elif comp == "chr":
                 b["chr"] = rng.choice([c for c in chroms if c != a["chr"]])
             elif comp == "start":
